@@ -92,15 +92,15 @@ pub proof fn lemma_sign_extend_i64(acc: i64, shift: u64)
 /// Stated as the relation "spec of the whole == acc + 2^(7k) * spec of the rest".
 pub open spec fn uleb_inv(o: RView, c: RView, k: nat, acc: nat) -> bool {
     &&& within(o, c) && c.start == o.start + k
-    &&& o.leb_len(0) == k + leb_len_in(o.root, o.start + k, o.end() as int)
-    &&& o.uleb(0) == acc + pow2(7 * k) * uleb_in(o.root, o.start + k, o.end() as int)
+    &&& o.leb_len(0) == k + leb_len_in(o.root, (o.start + k) as int, o.end() as int)
+    &&& o.uleb(0) == acc + pow2(7 * k) * uleb_in(o.root, (o.start + k) as int, o.end() as int)
     &&& acc < pow2(7 * k)
 }
 
 pub open spec fn sleb_inv(o: RView, c: RView, k: nat, acc: nat) -> bool {
     &&& within(o, c) && c.start == o.start + k
-    &&& o.leb_len(0) == k + leb_len_in(o.root, o.start + k, o.end() as int)
-    &&& o.sleb(0) == acc + pow2(7 * k) * sleb_in(o.root, o.start + k, o.end() as int)
+    &&& o.leb_len(0) == k + leb_len_in(o.root, (o.start + k) as int, o.end() as int)
+    &&& o.sleb(0) == acc + pow2(7 * k) * sleb_in(o.root, (o.start + k) as int, o.end() as int)
     &&& acc < pow2(7 * k)
 }
 
@@ -119,7 +119,7 @@ pub proof fn lemma_leb_init(o: RView)
 /// end of input inside the number: the LEB128 is not terminated within the window
 pub proof fn lemma_leb_eof(o: RView, c: RView, k: nat)
     requires within(o, c), c.start == o.start + k, c.len == 0,
-        o.leb_len(0) == k + leb_len_in(o.root, o.start + k, o.end() as int),
+        o.leb_len(0) == k + leb_len_in(o.root, (o.start + k) as int, o.end() as int),
     ensures !o.leb_ok(0),
 {
 }
